@@ -30,9 +30,10 @@ Theorem exit_c d c : WfC c ->
     /\ (forall a, a <> 0%N -> creg c' a = creg c a)
     /\ c_p0 c' = c_p0 c /\ c_p1 c' = c_p1 c /\ c_tx c' = c_tx c /\ WfC c'.
 Proof.
-  intros Hw. unfold exit. unfold bind at 1. rewrite set_ce_c.
-  unfold bind at 1. unfold get at 1. unfold bind at 1. unfold modify at 1.
-  rewrite reg_write_c by (try lia; apply land125_range).
+  intros Hw. unfold exit.
+  mstep ltac:(idtac). mstep ltac:(idtac). mstep ltac:(idtac).
+  erewrite bind_ok; [|apply reg_write_c; [lia|apply land125_range]]. cbv beta.
+  unfold sleep. cbn [b_ce b_sleep CB].
   eexists _, _. split; [reflexivity|].
   unfold cwrite. cbn [Z.to_N]. change (0 =? R_RX_ADDR_P0)%N with false.
   change (0 =? R_RX_ADDR_P1)%N with false. change (0 =? R_TX_ADDR)%N with false.
